@@ -399,9 +399,13 @@ def run_prob(spec, props=("C12",)):
                 want = {}
                 cols = statuses
                 for tr, pr in ref.items():
-                    key = tuple((tmin + i,) + tuple(sum(1 for s in st if s == c) for c in cols) for i, st in enumerate(tr))
+                    key = tuple((round(tmin + i, 9),) + tuple(sum(1 for s in st if s == c) for c in cols) for i, st in enumerate(tr))
                     want[key] = want.get(key, 0.0) + pr
-                got = {k[1]: pr for k, pr in dist.items()}
+                # times compared to 1e-9 (tmin + k by repeated addition is an ulp off tmin + k for non-dyadic tmin)
+                got = {}
+                for k, pr in dist.items():
+                    kk = tuple((round(row[0], 9),) + tuple(row[1:]) for row in k[1])
+                    got[kk] = got.get(kk, 0.0) + pr
             for k in set(got) | set(want):
                 if abs(got.get(k, 0.0) - want.get(k, 0.0)) > TOL:
                     A.add(V("C12", fn, cls, "trajectory_law", "P(trajectory %r) = %.12g, exact chain gives %.12g (p=%r)" % (k, got.get(k, 0.0), want.get(k, 0.0), p), (), got.get(k, 0.0), want.get(k, 0.0)))
@@ -556,6 +560,11 @@ def specs(tier):
                     for (tmn, steps) in ((-3, 3), (-1, 2), (-2.5, 3)):
                         for full in (True, False):
                             out.append(dict(kind="prob", fn=fn, n=n, edges=es, p=p, I0=[0], R0=[], tmin=tmn, tmax=(tmn + steps), full=full))
+                if p == 1.0 and es and n <= 3:
+                    # non-dyadic start times: the library's own outputs (arrays, histories, transmission records) must agree exactly
+                    for tmn in (1.0 / 3, 0.07, -2.0 / 3):
+                        for full in (True, False):
+                            out.append(dict(kind="prob", fn=fn, n=n, edges=es, p=p, I0=[0], R0=[], tmin=tmn, tmax=tmn + 4, full=full))
                 if p == 0.3 and es:
                     out.append(dict(kind="prob", fn=fn, n=n, edges=es, p=p, I0=[0], R0=[], tmin=1.5, tmax=3.5, full=False))
                     out.append(dict(kind="prob", fn=fn, n=n, edges=es, p=p, I0=[0], R0=[], tmin=0, tmax=1 if not sis else 2, full=False, style="positional"))
